@@ -39,14 +39,16 @@ where
 
   fn actual_subscribe(self, observer: O) -> Self::Unsub {
     let Self { scheduler, dur, delay } = self;
-    let task = if delay.is_some() {
+    let task = match delay {
       // `interval_at`: the first value is due at the given instant, not one
-      // more period after the subscription.
-      RepeatTask::new_immediate(dur, interval_task, observer)
-    } else {
-      RepeatTask::new(dur, interval_task, observer)
+      // more period after the subscription. As for `interval`, the wait
+      // starts now, not when the executor first polls the task.
+      Some(first) => {
+        RepeatTask::with_first_delay(first, dur, interval_task, observer)
+      }
+      None => RepeatTask::new(dur, interval_task, observer),
     };
-    scheduler.schedule(task, delay)
+    scheduler.schedule(task, None)
   }
 }
 
